@@ -249,7 +249,8 @@ class CallGraph:
 
   def _add(self, src: str, dst: str, kind: str):
     d = self.edges.setdefault(src, {})
-    order = {'exact': 0, 'nested': 0, 'ref': 1, 'proto': 2, 'approx': 3}
+    order = {'exact': 0, 'nested': 0, 'ref': 1, 'inst': 1, 'proto': 2,
+             'approx': 3}
     if dst not in d or order[kind] < order[d[dst]]:
       d[dst] = kind
 
@@ -327,6 +328,12 @@ class CallGraph:
           self.unresolved += 1
         for c in callees:
           self._add(owner_q, c, 'exact' if exact else 'approx')
+        # an instance of a class with __call__ may be used as a callback
+        cq = p.resolve(n.func, scope)
+        if cq in p.classes:
+          m_call = p.find_method(cq, '__call__')
+          if m_call is not None and m_call.qualname.startswith('fiddle.'):
+            self._add(owner_q, m_call.qualname, 'inst')
     # protocol edges into Buildable's dunder methods
     B = 'fiddle._src.config.Buildable'
     if B in p.classes:
@@ -403,7 +410,8 @@ class CallGraph:
     for lam in m.lambdas:
       self._add(q, lam.qualname, 'nested')
 
-  def reachable(self, roots, kinds=('exact', 'approx', 'ref', 'nested', 'proto'),
+  def reachable(self, roots, kinds=('exact', 'approx', 'ref', 'nested', 'proto',
+                                    'inst'),
                 stop=None) -> Dict[str, Optional[str]]:
     """BFS; returns {qualname: predecessor} (roots map to None)."""
     pred: Dict[str, Optional[str]] = {}
